@@ -1636,6 +1636,9 @@ func (g *FuncGen) runGhostAt(callee string, ord int, env *Env, results []Val) {
 		if ga.Ordinal != 0 && ga.Ordinal != ord {
 			continue
 		}
+		if ga.Ordinal != 0 && g.curInstr != nil {
+			g.anchor(fmt.Sprintf("call %s#%d", ga.Callee, ord), g.curInstr.Pos()) // ... and the text at the chosen site
+		}
 		// ghost statements see the callee's parameters/results and, where not shadowed, the caller's parameters
 		gst := g.cur
 		if g.ghostState != nil {
@@ -1725,6 +1728,30 @@ func (g *FuncGen) runGhostAt(callee string, ord int, env *Env, results []Val) {
 				return Val{}, false
 			}
 			if !best.isAddr {
+				// A variable modified inside a loop that encloses the call has the loop-head phi as its value at
+				// the top of each iteration; if the last dominating reference lies BEFORE that loop it is stale
+				// (no reference between the head and the call need exist), so the phi takes its place.
+				var enclosing []*loopInfo
+				for _, l := range g.loops {
+					if l.blocks[cb] {
+						enclosing = append(enclosing, l)
+					}
+				}
+				sort.Slice(enclosing, func(i, j int) bool { return len(enclosing[i].blocks) < len(enclosing[j].blocks) })
+			findPhi:
+				for _, l := range enclosing { // innermost first
+					if l.blocks[best.block] {
+						break // the last dominating reference is inside this loop: it is current
+					}
+					for _, in := range l.header.Instrs {
+						if phi, ok := in.(*ssa.Phi); ok && phi.Comment == name {
+							if _, defined := g.vals[phi]; defined {
+								best = &nameBinding{val: phi, block: l.header, idx: -1}
+							}
+							break findPhi
+						}
+					}
+				}
 				anc := g.ancestorsOf(cb)
 				for i := range g.names[name] {
 					nb := &g.names[name][i]
